@@ -82,6 +82,9 @@ pub struct Policy {
     pub fail_mprotect: Vec<u64>,
     /// address ranges on which every mprotect fails (pages that can never be made writable)
     pub mprotect_deny: Vec<(u64, u64)>,
+    /// part of the LAYOUT, not a fault: ranges whose protection can never be changed and which
+    /// cannot be written through /proc/self/mem either (a read-only shared file mapping)
+    pub immutable: Vec<(u64, u64)>,
     pub mmap_min_addr: u64,
     pub user_limit: u64,
     pub win_granule: u64,
@@ -98,6 +101,7 @@ impl Default for Policy {
             fail_mmap_all: false,
             fail_mprotect: Vec::new(),
             mprotect_deny: Vec::new(),
+            immutable: Vec::new(),
             mmap_min_addr: 0x1000,
             user_limit: 0x5000_0000_0000,
             win_granule: 0x10000,
@@ -116,6 +120,7 @@ pub struct Counters {
     pub mprotect_calls: u64,
     pub rejected_pairs: u64,
     pub mprotect_injected_fail: u64,
+    pub mprotect_on_immutable: u64,
     pub writes: u64,
     pub reads: u64,
     pub flushes: u64,
@@ -480,8 +485,13 @@ impl World {
         }
         let mut ret = 0;
         let denied = faultable && self.policy.mprotect_deny.iter().any(|(lo, hi)| addr < *hi && addr.saturating_add(len) > *lo);
+        let immutable = self.policy.immutable.iter().any(|(lo, hi)| addr < *hi && addr.saturating_add(self.page_up(len.max(1))) > *lo);
         if denied || (faultable && self.policy.fail_mprotect.binary_search(&idx).is_ok()) {
             self.counters.mprotect_injected_fail += 1;
+            ret = -1;
+        } else if immutable {
+            // not an injected fault: the layout contains a page nobody can re-protect
+            self.counters.mprotect_on_immutable += 1;
             ret = -1;
         } else if addr % self.page_size != 0 {
             ret = -1;
@@ -614,7 +624,7 @@ impl World {
         let mut n = 0usize;
         for (i, b) in bytes.iter().enumerate() {
             let a = addr + i as u64;
-            let denied = self.policy.mprotect_deny.iter().any(|(lo, hi)| a >= *lo && a < *hi);
+            let denied = self.policy.mprotect_deny.iter().chain(self.policy.immutable.iter()).any(|(lo, hi)| a >= *lo && a < *hi);
             let s = match self.region_at(a) {
                 Some((s, r)) if !denied && !(r.owner == Owner::Foreign && r.prot == 0) => s,
                 _ => break,
